@@ -13,3 +13,19 @@ def undefined_macro_without_definitions(case, deviation):
     `test_all_patterns[lucia_test no macros]` (expects False for a rule using @any without macros), so it cannot be repaired
     without editing that test.  Only the C17 fault cell 'undefined-macro-no-defs' is covered; any other silent miss is new."""
     return case.get("fault") == "undefined-macro-no-defs" and deviation.get("kind") == "silent-miss"
+
+
+def prefixed_instruction_operands_dropped(case, deviation):
+    """F15: an instruction that objdump prints with a prefix word in front of the mnemonic (lock addl $0x1,(%rax); rep stos ...;
+    bnd call ...; cs nopw ...) reaches the stream as <prefix>,<next word>, - the prefix is taken for the mnemonic, the next word
+    (the real mnemonic, or a second prefix) for the operand string (so `jo,pn` becomes two operands), and the real operands are
+    gone.  Only this exact shape is covered; a prefixed line that is dropped, split differently or normalised wrongly is a new
+    violation."""
+    if deviation.get("kind") != "prefixed-instruction-loses-operands" or deviation.get("mnemonic_in_stream") != deviation.get("prefix"):
+        return False
+    pieces = str(deviation.get("following_word")).split(",")
+    got = deviation.get("operands_in_stream")
+    if not isinstance(got, list) or len(got) != len(pieces):
+        return False
+    # the word went through the operand normaliser like an operand: `(bad)` has the shape (a) and comes out as [bad]
+    return all(g == p_ or (p_.startswith("(") and p_.endswith(")") and g == "[" + p_[1:-1] + "]") for g, p_ in zip(got, pieces))
